@@ -526,6 +526,14 @@ def g_titled(s, kws, ctx, dialect, has_tags=True, p_desc=0.4):
             if m["k"] == "text" and trim(m["raw"]) and any(k in EXPECTED[ctx] for k in cf_kinds(dialect, m["raw"] + "\n")):
                 i = lead_ws(m["raw"])
                 m["raw"] = m["raw"][:i] + "~" + m["raw"][i:]
+        if s.int(3) == 0:
+            # a line of the description occurs again, character for character (a rule above and below a note, a repeated sentence)
+            t["desc"].insert(s.int(len(t["desc"]) + 1), dict(t["desc"][s.int(len(t["desc"]))]))
+            if s.int(2):
+                t["desc"].append(dict(t["desc"][0]))
+    if s.int(8) == 0:
+        # the name mentions its own keyword (and colon) again
+        t["name"] = t["name"] + t["kw"] + ":" + s.choice(["", " "]) + t["kw"] + g_text(s)
     return t
 
 
@@ -590,6 +598,9 @@ def g_docarg(s):
 def g_step(s, dialect, p_arg=0.35):
     kws = [k for k, _ in step_keywords(dialect)]
     st_ = {"pre": g_miscs(s), "indent": g_indent(s), "kw": s.choice(kws), "text": g_text(s), "trail": g_trail(s), "arg": None}
+    if s.int(6) == 0:
+        # the text mentions the step's own keyword again (once, twice, glued)
+        st_["text"] = st_["text"] + st_["kw"] + s.choice(["x ", "", st_["kw"]]) + st_["kw"].strip() + g_text(s)
     if s.prob(p_arg):
         st_["arg"] = {"t": "table", "rows": g_rows(s)} if s.int(2) else g_docarg(s)
     return st_
